@@ -252,8 +252,7 @@ class Realised:
         self.msx: list = []          # the dependencies as the model sees them
         self.srcdirs: list[str | None] = []
         os.makedirs(self.docdir)
-        libdir = sc["libdir"]
-        self.destdir = os.path.join(self.docdir, libdir) if libdir else self.docdir
+        self.configure(sc["libdir"], sc["iv"], sc["host"])
         pkgroot = os.path.join(top, "pkgs")
         for i, d in enumerate(sc["deps"]):
             kind = d["kind"]
@@ -321,12 +320,35 @@ class Realised:
             i, p = sc["missing"]
             os.remove(os.path.join(self.srcdirs[i], p))
 
-    def namever(self, i: int) -> str:
+    def configure(self, libdir, iv: bool, host: str) -> None:
+        self.libdir, self.iv, self.host = libdir, iv, host
+        self.destdir = os.path.join(self.docdir, libdir) if libdir else self.docdir
+
+    def namever(self, i: int, iv: bool | None = None) -> str:
         d = self.sc["deps"][i]
-        return d["name"] + ("-" + str(self.deps[i].version) if self.sc["iv"] else "")
+        iv = self.iv if iv is None else iv
+        return d["name"] + ("-" + str(self.deps[i].version) if iv else "")
 
     def target_dir(self, i: int) -> str:
         return os.path.join(self.destdir, self.namever(i))
+
+    def target_dir_for(self, i: int, libdir, iv: bool) -> str:
+        dest = os.path.join(self.docdir, libdir) if libdir else self.docdir
+        return os.path.join(dest, self.namever(i, iv))
+
+    def is_local(self, i: int) -> bool:
+        return self.sc["deps"][i]["kind"] not in ("url", "none")
+
+    def first_missing(self):
+        """(i, p): the first dependency (in copy order) without all_files that lists a file which
+        does not exist right now, and that file"""
+        for i, d in enumerate(self.sc["deps"]):
+            if not self.is_local(i) or d["all_files"]:
+                continue
+            for p in d["scripts"] + d["styles"]:
+                if not os.path.exists(os.path.join(self.srcdirs[i], p)):
+                    return (i, p)
+        return None
 
     def cleanup_imports(self) -> None:
         for pkg in self.pkg_names:
@@ -345,11 +367,10 @@ class Realised:
         return out
 
     def host_object(self):
-        sc = self.sc
         kids = [div("content", self.deps[0]) if self.deps else div("content")] + list(self.deps[1:]) + [span("end")]
-        if sc["host"] == "doc":
+        if self.host == "doc":
             return HTMLDocument(TagList(*kids))
-        if sc["host"] == "tag":
+        if self.host == "tag":
             return div(*kids, id="host")
         return TagList(*kids)
 
@@ -382,7 +403,7 @@ def expected_local(r: Realised) -> dict[str, bytes | None]:
     for i, d in enumerate(sc["deps"]):
         if d["kind"] in ("url", "none"):
             continue
-        prefix = (sc["libdir"] + "/") if sc["libdir"] else ""
+        prefix = (r.libdir + "/") if r.libdir else ""
         for p in d["scripts"] + d["styles"]:
             src = os.path.join(r.srcdirs[i], p)
             content = open(src, "rb").read() if os.path.isfile(src) else None
@@ -415,23 +436,35 @@ def spec_url(sc: dict, d: dict, ver: str, lib_prefix, iv: bool, p: str) -> str:
 # one scenario: save_html (or copy_to) on real directories; oracle + model comparison
 # --------------------------------------------------------------------------------------
 def run_scenario(ctx: Ctx, sc: dict, top: str, tag: str, mode: str, pending: list) -> None:
-    """mode 'save': save_html on the host object; 'copy': dep.copy_to for each dependency.
-    Appends (model case, expected canonical value, description) to `pending`."""
+    """one copy/save on a freshly realised scenario"""
     r = Realised(sc, top, tag)
     try:
+        copy_step(ctx, r, mode, pending, {"mode": mode, "scenario": sc})
+    finally:
+        r.cleanup_imports()
+
+
+def copy_step(ctx: Ctx, r: Realised, mode: str, pending: list, case: dict) -> None:
+    """mode 'save': save_html on the host object; 'copy': dep.copy_to for each dependency, with
+    the current configuration of r, on whatever the directories contain right now.
+    Applies the oracle and appends (model case, meta, real tree afterwards) to `pending`."""
+    if True:
+        sc, top = r.sc, r.top
         before_all = snapshot(top)
-        before_dirs = dirs_below(top)
         mfs = r.model_fs()
-        missing = sc.get("missing")
+        missing = r.first_missing()
         exp_local = expected_local(r)
+        file_at_target = any(r.is_local(i) and os.path.isfile(r.target_dir(i)) for i in range(len(r.deps)))
+        doc_before = open(r.file, "rb").read() if os.path.isfile(r.file) else None
+        t_before = [os.path.lexists(r.target_dir(i)) for i in range(len(r.deps))]
 
         if mode == "save":
             host = r.host_object()
-            out = call(lambda: host.save_html(r.file, libdir=sc["libdir"], include_version=sc["iv"]))
+            out = call(lambda: host.save_html(r.file, libdir=r.libdir, include_version=r.iv))
         else:
             out = ("ok", None)
             for i, dep in enumerate(r.deps):
-                o = call(lambda: dep.copy_to(r.destdir, include_version=sc["iv"]))
+                o = call(lambda: dep.copy_to(r.destdir, include_version=r.iv))
                 if o[0] != "ok":
                     out = o
                     break
@@ -439,15 +472,13 @@ def run_scenario(ctx: Ctx, sc: dict, top: str, tag: str, mode: str, pending: lis
         # what the model must reproduce: the tree afterwards, without the written document
         real_after = {os.path.join(top, k): v for k, v in after_all.items()
                       if os.path.join(top, k) != r.file}
-        pending.append(([9, mfs, S(r.docdir), sx_opt(None if sc["libdir"] is None else S(sc["libdir"])),
-                         1 if sc["iv"] else 0, r.msx],
-                        (mode, sc, top, "ok" if out[0] == "ok" else out), real_after))
-
-        file_at_target = any(d["stale_kind"] == "file_at_target" for d in sc["deps"])
+        pending.append(([9, mfs, S(r.docdir), sx_opt(None if r.libdir is None else S(r.libdir)),
+                         1 if r.iv else 0, r.msx],
+                        (mode, case, top, "ok" if out[0] == "ok" else out, r.file), real_after))
 
         # ---------------- oracle (from the property statement) ----------------------------
         def viol(what, detail):
-            ctx.violation(what, {"mode": mode, "scenario": sc}, detail)
+            ctx.violation(what, case, detail)
 
         if missing is not None:
             i, p = missing
@@ -460,9 +491,10 @@ def run_scenario(ctx: Ctx, sc: dict, top: str, tag: str, mode: str, pending: lis
             if a != b:
                 viol("a listed file is missing and the target directory was touched before raising",
                      {"impl_output": sorted(a), "expected": sorted(b)})
-            if mode == "save" and os.path.exists(r.file):
+            doc_after = open(r.file, "rb").read() if os.path.isfile(r.file) else None
+            if mode == "save" and doc_after != doc_before:
                 viol("save_html wrote the document although copying a dependency raised",
-                     {"impl_output": "index.html exists", "expected": "no document"})
+                     {"impl_output": "index.html written", "expected": "no (new) document"})
             return
         if file_at_target:
             return        # correspondence only: the property makes no claim when rmtree fails
@@ -471,7 +503,7 @@ def run_scenario(ctx: Ctx, sc: dict, top: str, tag: str, mode: str, pending: lis
             return
         if mode == "save":
             if out[1] != r.file:
-                viol(f"save_html on a {sc['host']} did not return the path it wrote",
+                viol(f"save_html on a {r.host} did not return the path it wrote",
                      {"impl_output": repr(out[1]), "expected": r.file})
             if not os.path.isfile(r.file):
                 viol("save_html did not write the file", {"impl_output": None, "expected": r.file})
@@ -509,7 +541,7 @@ def run_scenario(ctx: Ctx, sc: dict, top: str, tag: str, mode: str, pending: lis
             want_abs = []
             for i, d in enumerate(sc["deps"]):
                 if d["kind"] == "url":
-                    want_abs += [spec_url(sc, d, "", sc["libdir"], sc["iv"], p) for p in d["styles"] + d["scripts"]]
+                    want_abs += [spec_url(sc, d, "", r.libdir, r.iv, p) for p in d["styles"] + d["scripts"]]
             if sorted(absolute) != sorted(want_abs):
                 viol("URL-sourced dependency: script/stylesheet URL is not href/path",
                      {"impl_output": sorted(absolute), "expected": sorted(want_abs)})
@@ -518,7 +550,7 @@ def run_scenario(ctx: Ctx, sc: dict, top: str, tag: str, mode: str, pending: lis
         for i, d in enumerate(sc["deps"]):
             t = r.target_dir(i)
             if d["kind"] in ("url", "none"):
-                if os.path.exists(t) and not d["stale"]:
+                if os.path.lexists(t) and not t_before[i]:
                     viol("a URL-sourced / source-less dependency created a directory",
                          {"impl_output": t, "expected": "nothing copied"})
                 continue
@@ -537,10 +569,9 @@ def run_scenario(ctx: Ctx, sc: dict, top: str, tag: str, mode: str, pending: lis
                     if not any(os.path.join(top, k) == c or os.path.join(top, k).startswith(c + "/") for c in claimed)}
         if outside(before_all) != outside(after_all):
             viol("files outside the dependencies' target directories changed",
-                 {"impl_output": sorted(set(outside(after_all).items()) ^ set(outside(before_all).items()))[:4],
+                 {"impl_output": sorted(set(outside(after_all)) ^ set(outside(before_all)))[:4]
+                  or [k for k in outside(after_all) if outside(after_all)[k] != outside(before_all).get(k)][:4],
                   "expected": "unchanged"})
-    finally:
-        r.cleanup_imports()
 
 
 def check_pending(ctx: Ctx, name: str, pending: list) -> None:
@@ -550,13 +581,13 @@ def check_pending(ctx: Ctx, name: str, pending: list) -> None:
     outs = run_model([p[0] for p in pending], driver="c12")
     dis = []
     for (case, meta, real_after), m in zip(pending, outs):
-        mode, sc, top, status = meta
+        mode, sc, top, status, docfile = meta
         if isinstance(m, tuple) or m == [999999, 999999]:
             dis.append({"case": sc, "impl_output": status, "model_output": repr(m)[:200]})
             continue
         mres = res_dec(m[0], lambda _: None)
         mstatus = "ok" if mres[0] == "ok" else mres
-        mfs = {k: v for k, v in fs_from_sx(m[1]).items() if k.startswith(top + "/")}
+        mfs = {k: v for k, v in fs_from_sx(m[1]).items() if k.startswith(top + "/") and k != docfile}
         if mstatus != status:
             dis.append({"case": sc, "impl_output": status, "model_output": mstatus})
         elif mfs != real_after:
@@ -618,6 +649,142 @@ def exhaustive_scenarios() -> list[dict]:
     return out
 
 
+# --------------------------------------------------------------------------------------
+# histories: several copies / saves of the SAME dependency objects in one process, with the
+# source and destination directories changing in between
+# --------------------------------------------------------------------------------------
+def rand_history(rng, pattern: str | None = None) -> dict:
+    """a base scenario plus 2-4 copy/save steps separated by 0-2 mutation steps.
+    step ::= ["save"|"copy", libdir, iv, host]
+           | ["delete", i, p] | ["restore", i, p, bytes] | ["change", i, p, bytes]
+           | ["add", i, p, bytes] | ["rename", i, p, q]
+           | ["stale", i, rel, bytes, libdir, iv]
+    Only sources of kind dir / pkg (temporary directories) are ever modified; listed files of
+    all_files dependencies are never deleted or renamed."""
+    while True:
+        sc = rand_scenario(rng)
+        loc = [i for i, d in enumerate(sc["deps"]) if d["kind"] in ("dir", "pkg")]
+        listed_loc = [i for i in loc if not sc["deps"][i]["all_files"]
+                      and sc["deps"][i]["scripts"] + sc["deps"][i]["styles"]]
+        if loc and (listed_loc or pattern is None or pattern == "allfiles"):
+            if pattern == "allfiles" and not any(sc["deps"][i]["all_files"] for i in loc):
+                sc["deps"][loc[0]]["all_files"] = True
+            break
+    for d in sc["deps"]:      # no regular file in place of a target directory here
+        if d["stale_kind"] == "file_at_target":
+            d["stale_kind"], d["stale"] = "none", {}
+    cur = {i: dict(sc["deps"][i]["files"]) for i in loc}       # current source content
+    deleted: dict[int, dict[str, list[int]]] = {i: {} for i in loc}
+    steps: list = []
+    uniq = itertools.count()
+    cfg = [sc["libdir"], sc["iv"], sc["host"]]
+
+    def copy_step_desc(same: bool):
+        if not same and rng.random() < 0.35:
+            cfg[0] = rng.choice(LIBDIRS)
+        if not same and rng.random() < 0.35:
+            cfg[1] = rng.random() < 0.5
+        cfg[2] = rng.choice(["doc", "tag", "taglist"])
+        return [rng.choice(["save", "save", "copy"]), cfg[0], cfg[1], cfg[2]]
+
+    def mutation():
+        i = rng.choice(loc)
+        d = sc["deps"][i]
+        listed = [p for p in dict.fromkeys(d["scripts"] + d["styles"])]
+        ops = ["stale", "add"]
+        if cur[i]:
+            ops += ["change", "change"]
+        if listed and not d["all_files"] and any(p in cur[i] for p in listed):
+            ops += ["delete", "delete", "delete"]
+        if deleted[i]:
+            ops += ["restore", "restore", "restore"]
+        unlisted = [p for p in cur[i] if not any(p == q or p.startswith(q + "/") for q in listed)]
+        if unlisted:
+            ops += ["rename"]
+        op = rng.choice(ops)
+        k = next(uniq)
+        if op == "delete":
+            p = rng.choice([p for p in listed if p in cur[i]])
+            deleted[i][p] = cur[i].pop(p)
+            return ["delete", i, p]
+        if op == "restore":
+            p = rng.choice(sorted(deleted[i]))
+            b = deleted[i].pop(p) if rng.random() < 0.7 else (deleted[i].pop(p) and rand_bytes(rng))
+            cur[i][p] = b
+            return ["restore", i, p, b]
+        if op == "change":
+            p = rng.choice(sorted(cur[i]))
+            cur[i][p] = rand_bytes(rng) + [k % 256]
+            return ["change", i, p, cur[i][p]]
+        if op == "add":
+            p = rng.choice([f"new{k} file.js", f"nd{k}/x y%.css", f"n{k}é.txt"])
+            cur[i][p] = rand_bytes(rng)
+            return ["add", i, p, cur[i][p]]
+        if op == "rename":
+            p = rng.choice(sorted(unlisted))
+            q = rng.choice([f"rn{k} é.js", f"rd{k}/r#.css"])
+            cur[i][q] = cur[i].pop(p)
+            return ["rename", i, p, q]
+        return ["stale", i, rng.choice([f"zz stale{k}.txt", f"zd{k}/old%.js"]), rand_bytes(rng), cfg[0], cfg[1]]
+
+    if pattern == "delete":          # copy, delete a listed file, copy (must raise), restore, copy
+        i = rng.choice(listed_loc)
+        d = sc["deps"][i]
+        p = rng.choice(d["scripts"] + d["styles"])
+        steps = [copy_step_desc(True), ["delete", i, p], copy_step_desc(rng.random() < 0.7)]
+        if rng.random() < 0.6:
+            steps += [["restore", i, p, cur[i][p] if rng.random() < 0.5 else rand_bytes(rng)], copy_step_desc(True)]
+    elif pattern == "allfiles":      # copy, add / rename / change in the source, copy
+        steps = [copy_step_desc(True)]
+        for _ in range(rng.randrange(1, 3)):
+            for _ in range(rng.randrange(1, 3)):
+                steps.append(mutation())
+            steps.append(copy_step_desc(rng.random() < 0.7))
+    else:
+        for n in range(rng.randrange(2, 5)):
+            if n > 0 or rng.random() < 0.3:
+                for _ in range(rng.randrange(0, 3)):
+                    steps.append(mutation())
+            steps.append(copy_step_desc(False))
+    return {"scenario": sc, "steps": steps}
+
+
+def apply_mutation(r: Realised, st: list) -> None:
+    op, i = st[0], st[1]
+    srcdir = r.srcdirs[i]
+    assert r.sc["deps"][i]["kind"] in ("dir", "pkg") and srcdir.startswith(r.top + "/")
+    if op == "delete":
+        os.remove(os.path.join(srcdir, st[2]))
+    elif op in ("restore", "change", "add"):
+        write_tree(srcdir, [(st[2], st[3])])
+    elif op == "rename":
+        dst = os.path.join(srcdir, st[3])
+        os.makedirs(os.path.dirname(dst), exist_ok=True)
+        os.rename(os.path.join(srcdir, st[2]), dst)
+    elif op == "stale":
+        write_tree(r.target_dir_for(i, st[4], st[5]), [(st[2], st[3])])
+    else:
+        raise ValueError(op)
+
+
+def run_history(ctx: Ctx, h: dict, top: str, tag: str, pending: list) -> int:
+    """returns the number of copy/save steps performed"""
+    r = Realised(h["scenario"], top, tag)
+    n = 0
+    try:
+        for k, st in enumerate(h["steps"]):
+            if st[0] in ("save", "copy"):
+                r.configure(st[1], st[2], st[3])
+                n += 1
+                copy_step(ctx, r, st[0], pending,
+                          {"mode": "history", "scenario": h["scenario"], "steps": h["steps"], "at_step": k})
+            else:
+                apply_mutation(r, st)
+    finally:
+        r.cleanup_imports()
+    return n
+
+
 def missing_variants(sc: dict) -> list[dict]:
     """one scenario per listed file of every local dependency without all_files"""
     out = []
@@ -662,7 +829,11 @@ def run(ctx: Ctx) -> None:
                 "directories, dot-files, the same file listed twice; scenarios on real temporary directories: "
                 "save_html on HTMLDocument / Tag / TagList and copy_to directly, with stale files (also with "
                 "the names of real files) in the target directory, bystander files, a regular file in place of "
-                "the target directory, and one scenario per choice of missing listed file. A scenario is "
+                "the target directory, and one scenario per choice of missing listed file; histories: 2-4 copy/save steps (changing libdir / "
+                "include_version / host) on the same dependency objects and directories in one process, separated "
+                "by deleting / restoring / changing listed source files, adding / renaming source files, dropping "
+                "stale files into a target directory, with the full oracle and the model comparison after every "
+                "step. A scenario is "
                 "non-trivial when a file name needs quoting or is nested, or the target has stale content, or a "
                 "source is a package/URL/None, or a file is missing; distinct = distinct canonical scenario "
                 "descriptions / strings.")
@@ -886,6 +1057,25 @@ def run(ctx: Ctx) -> None:
         go([dict(sc) for sc in miss[:ctx.budget(25, 300)]], "copy", "missing listed file (copy_to)")
         go(special, "copy", "target is a regular file / directory listed with a file inside it", oracle_on=False)
 
+        # histories in one process on the same dependency objects and directories
+        hists = ([rand_history(rng, "delete") for _ in range(ctx.budget(25, 400))]
+                 + [rand_history(rng, "allfiles") for _ in range(ctx.budget(12, 200))]
+                 + [rand_history(rng) for _ in range(ctx.budget(25, 500))])
+        pending_h: list = []
+        nsteps = 0
+        for h in hists:
+            k = next(counter)
+            top = os.path.join(root, f"h{k}")
+            os.makedirs(top)
+            try:
+                ctx.count({"mode": "history", **h}, True,
+                          "history (%d copy/save steps)" % sum(st[0] in ("save", "copy") for st in h["steps"]))
+                nsteps += run_history(ctx, h, top, f"{os.getpid()}_{k}", pending_h)
+            finally:
+                shutil.rmtree(top, ignore_errors=True)
+        check_pending(ctx, f"histories ({len(hists)} histories, every copy/save step)", pending_h)
+        ctx.extra["history_copy_steps"] = nsteps
+
         # ---- C 4: the extracted specification of C12_agree against where files really land
         spec_cases = []
         for sc in (scen_save[:ctx.budget(60, 600)]):
@@ -922,7 +1112,20 @@ def replay(ctx: Ctx, path: str) -> None:
         r = json.load(f)
     print(json.dumps(r, indent=1)[:4000])
     case = r.get("case")
-    if isinstance(case, dict) and "scenario" in case:
+    if isinstance(case, dict) and "steps" in case:
+        ctx.rule = "replay of one recorded history"
+        ctx.proof()
+        root = os.path.realpath(tempfile.mkdtemp(prefix="verif-c12-"))
+        try:
+            top = os.path.join(root, "h0")
+            os.makedirs(top)
+            pending = []
+            ctx.count(case, True, "replayed history")
+            run_history(ctx, {"scenario": case["scenario"], "steps": case["steps"]}, top, f"{os.getpid()}_r", pending)
+            check_pending(ctx, "replayed history", pending)
+        finally:
+            shutil.rmtree(root, ignore_errors=True)
+    elif isinstance(case, dict) and "scenario" in case:
         ctx.rule = "replay of one recorded scenario"
         ctx.proof()
         sc = case["scenario"]
